@@ -2,10 +2,65 @@ package main
 
 // Intrinsics added for C14 (nsqlookupd registry).
 
+import "fmt"
+
 func init() {
 	// (*strings.Builder).copyCheck only detects a Builder that was copied by value after first
 	// use (it stores its own address through unsafe.Pointer -> uintptr). No code under test
 	// copies a Builder, so the check is a no-op here. Needed by net/url.unescape ('%23' in
 	// "topic=e%23ephemeral").
 	intrinsics["(*strings.Builder).copyCheck"] = func(in *Interp, fr *frame, args []value) value { return nil }
+
+	// verifrt.ClockSteps(bits): opt-in clock model "previous reading + fresh unsigned step".
+	// The stock model hands out unrelated 64-bit variables tied together by bvsle side
+	// constraints; proving anything about differences of such readings makes z3 reason about
+	// 64-bit order chains (0.3-0.6 s per unsat query). With steps, monotonicity is structural and
+	// differences are sums of small steps (about 6x faster). A variable clock#N equal to the
+	// reading is still declared so that the replay file carries the readings as before.
+	// Harnesses that do not call ClockSteps are unaffected.
+	const flag = "c14.clocksteps"
+	intrinsics[rtPkg+"ClockSteps"] = func(in *Interp, fr *frame, args []value) value {
+		in.ghost[flag] = int(args[0].(*Term).sval())
+		in.h.Bounds["clock-step-bits"] = args[0].(*Term).sval()
+		return nil
+	}
+	stepNow := func(in *Interp, bits int) value {
+		tt := in.tt
+		in.clockN++
+		v := in.freshNamed(fmt.Sprintf("clock#%d", in.clockN), 64)
+		d := in.freshNamed(fmt.Sprintf("clockstep#%d", in.clockN), bits)
+		base := in.clockLast
+		if base == nil {
+			base = tt.Const(64, 1356998400000000000)
+			if in.clockLo != nil {
+				base = in.clockLo
+			}
+		}
+		e := tt.Add(base, tt.ZExt(d, 64))
+		in.pc = append(in.pc, tt.Eq(v, e))
+		in.model = nil
+		in.clockLast = e
+		return in.mkTime(e)
+	}
+	wrap := func(name string, f func(in *Interp, now value, args []value) value) {
+		orig := intrinsics[name]
+		if orig == nil {
+			return
+		}
+		intrinsics[name] = func(in *Interp, fr *frame, args []value) value {
+			bits, on := in.ghost[flag].(int)
+			if !on {
+				return orig(in, fr, args)
+			}
+			return f(in, stepNow(in, bits), args)
+		}
+	}
+	now := func(in *Interp, now value, args []value) value { return now }
+	since := func(in *Interp, now value, args []value) value { return in.tt.Sub(timeNS(now), timeNS(args[0])) }
+	until := func(in *Interp, now value, args []value) value { return in.tt.Sub(timeNS(args[0]), timeNS(now)) }
+	wrap("time.Now", now)
+	wrap(rtPkg+"Now", now)
+	wrap("time.Since", since)
+	wrap(rtPkg+"Since", since)
+	wrap("time.Until", until)
 }
